@@ -115,6 +115,8 @@ def stmt(self, s: ast.stmt, st: State) -> Optional[State]:
         return self.st_try(s, st)
     if t is ast.With:
         return self.st_with(s, st)
+    if t is getattr(ast, "Match", None):
+        return self.stmt(_desugar_match(s), st)
     if t is ast.Raise:
         return self.st_raise(s, st)
     if t is ast.Return:
@@ -499,7 +501,83 @@ def st_return(self, s: ast.Return, st: State) -> Optional[State]:
     return None
 
 
+def _is_suppress(self, item: ast.withitem, st: State):
+    """exception classes if the context manager is contextlib.suppress(E1, E2, ...) (not bound with `as`), else None"""
+    ce = item.context_expr
+    if item.optional_vars is not None or not isinstance(ce, ast.Call) or ce.keywords or not ce.args:
+        return None
+    f = self.ev(ce.func, st)
+    if f.op == "ext" and f.args[0] in ("contextlib.suppress", "suppress"):
+        return list(ce.args)
+    return None
+
+
+def _desugar_match(s):
+    """match SUBJECT: case P1: ... case P2: ...   as an if / elif chain, for value, singleton, or-, capture and wildcard patterns and fixed-length sequence
+    patterns made of those (class, mapping and star patterns are outside the interpreted fragment)"""
+    subj = s.subject
+    if not isinstance(subj, (ast.Name, ast.Attribute, ast.Constant, ast.Subscript, ast.Tuple)):
+        raise Unsupported("match on a computed subject at line %d" % s.lineno)
+
+    def test_and_binds(pat, value):
+        if isinstance(pat, ast.MatchValue):
+            return ast.Compare(left=value, ops=[ast.Eq()], comparators=[pat.value]), []
+        if isinstance(pat, ast.MatchSingleton):
+            return ast.Compare(left=value, ops=[ast.Is()], comparators=[ast.Constant(value=pat.value)]), []
+        if isinstance(pat, ast.MatchOr):
+            tests = []
+            for p_ in pat.patterns:
+                t_, b_ = test_and_binds(p_, value)
+                if b_ or t_ is None:
+                    raise Unsupported("or-pattern with captures / wildcard at line %d" % s.lineno)
+                tests.append(t_)
+            return ast.BoolOp(op=ast.Or(), values=tests), []
+        if isinstance(pat, ast.MatchAs):
+            if pat.pattern is None:
+                return None, ([(pat.name, value)] if pat.name else [])
+            t_, b_ = test_and_binds(pat.pattern, value)
+            return t_, b_ + ([(pat.name, value)] if pat.name else [])
+        if isinstance(pat, ast.MatchSequence) and not any(isinstance(p_, ast.MatchStar) for p_ in pat.patterns) and isinstance(value, ast.Tuple) and len(value.elts) == len(pat.patterns):
+            tests, binds = [], []
+            for p_, v_ in zip(pat.patterns, value.elts):
+                t_, b_ = test_and_binds(p_, v_)
+                if t_ is not None:
+                    tests.append(t_)
+                binds += b_
+            return (ast.BoolOp(op=ast.And(), values=tests) if len(tests) > 1 else tests[0] if tests else None), binds
+        raise Unsupported("match pattern %s at line %d" % (type(pat).__name__, s.lineno))
+
+    chain = None
+    for case in reversed(s.cases):
+        test, binds = test_and_binds(case.pattern, subj)
+        body = [ast.Assign(targets=[ast.Name(id=n_, ctx=ast.Store())], value=v_) for n_, v_ in binds] + list(case.body)
+        if case.guard is not None:
+            if binds:
+                raise Unsupported("guarded case with captures at line %d" % s.lineno)
+            test = case.guard if test is None else ast.BoolOp(op=ast.And(), values=[test, case.guard])
+        if test is None:
+            if chain is not None and case is not s.cases[-1]:
+                raise Unsupported("irrefutable case before the last one at line %d" % s.lineno)
+            chain = ast.If(test=ast.Constant(value=True), body=body, orelse=[])
+        else:
+            chain = ast.If(test=test, body=body, orelse=[chain] if chain is not None else [])
+    for n_ in ast.walk(chain):
+        if not hasattr(n_, "lineno") or getattr(n_, "lineno", None) is None:
+            ast.copy_location(n_, s)
+    ast.fix_missing_locations(chain)
+    return chain
+
+
 def st_with(self, s: ast.With, st: State) -> Optional[State]:
+    if len(s.items) == 1:
+        sup = _is_suppress(self, s.items[0], st)
+        if sup is not None:
+            # with suppress(E...): BODY   is   try: BODY / except (E...): pass
+            h = ast.ExceptHandler(type=(sup[0] if len(sup) == 1 else ast.Tuple(elts=sup, ctx=ast.Load())), name=None, body=[ast.Pass()])
+            t = ast.Try(body=s.body, handlers=[h], orelse=[], finalbody=[])
+            for n_ in (h, t, h.body[0]) + ((h.type,) if isinstance(h.type, ast.Tuple) else ()):
+                ast.copy_location(n_, s)
+            return self.st_try(t, st)
     uid = fresh_uid()
     mgrs = []
     for item in s.items:
